@@ -42,13 +42,17 @@ from harness.props import devx_util as X
 
 PROP = "C57"
 LEAN_MODULES = ["LunaVerif.Props.C57", "LunaVerif.Lemmas.C57Ghost", "LunaVerif.Lemmas.C57Rx", "LunaVerif.Lemmas.C57Tx",
-                "LunaVerif.Props.C57Streams", "LunaVerif.Props.C57RxHost"]
+                "LunaVerif.Props.C57Streams", "LunaVerif.Props.C57RxHost",
+                "LunaVerif.Lemmas.C57CycBridge", "LunaVerif.Lemmas.C57CycRuns", "LunaVerif.Props.C57Cycles"]
 DRIVER = "Driver/C57.lean"
 REQUIRED_THEOREMS = ["acm_enumerates", "set_line_coding_accepted", "other_class_vendor_stalled", "vendor_reserved_stalled",
                      "unsupported_request_stalled", "rx_in_order_partial", "tx_in_order_partial",
                      "rx_in_order", "rx_delivered_prefix", "tx_in_order", "tx_kept_prefix", "tx_exactly_once",
                      "halt_clear_is_clear_feature", "rx_host_in_order", "rx_host_exactly_once",
-                     "out_data_follows_out_token"]
+                     "out_data_follows_out_token",
+                     "in_bridge", "out_bridge", "in_cycles_refine", "out_cycles_refine",
+                     "acm_rx_cycles", "acm_tx_cycles", "acm_status_cycles", "cycle_ghost_eq",
+                     "rx_in_order_cycles", "delivered_is_stream", "tx_in_order_cycles", "tx_exactly_once_cycles"]
 RULE = ("cases = (a) 'matrix' sessions: ONE request matrix per run, cut into 4 (quick) / 48 (thorough) sessions = the FULL "
         "cross request type (standard / class / vendor / reserved) x recipient (device / interface / endpoint / other / a "
         "reserved one) x direction x data stage (none / wLength 7 / another wLength) for every bRequest that ACMRequestHandlers implements (its "
@@ -103,8 +107,15 @@ PARTIAL = ("rx_in_order / tx_in_order are now proved for EVERY event history of 
            "HostAcksWhatItGot, HostOutDiscipline) rather than derived from a model of the bus; a host that loses the ACK "
            "of the CLEAR_FEATURE status stage itself (it restarts its toggle, the device does not) is outside the "
            "hypotheses. acm_enumerates is proved for the default descriptor set regenerated from "
-           "create_descriptors on every run and for every address; the refinement from cycles to events is by "
-           "co-simulation only.")
+           "create_descriptors on every run and for every address. Cycles -> events: proved for the three non-control "
+           "endpoints (acm_rx_cycles / acm_tx_cycles / acm_status_cycles: C13's / C11's cycle-level machines over C12's "
+           "clock-cycle expansions of every whole-device history put out what the whole-device model's endpoints put out; "
+           "cycle_ghost_eq, rx_in_order_cycles, delivered_is_stream, tx_in_order_cycles transfer rx / tx order to the "
+           "cycle-level models) under CycLegal (data packets directly follow a token, are acceptor-legal byte sequences "
+           "and fit into the rx FIFO while the registers name OUT 4: the overflow -> NAK path is not transferred; stream "
+           "events between transactions); the control endpoint (token registers, new_token, halt-clear strobe, request "
+           "handlers incl. ACMRequestHandlers) and the packet layer below the endpoint interfaces remain tied to the "
+           "gateware by co-simulation only.")
 
 S, I, O, P = U.PID_SETUP, U.PID_IN, U.PID_OUT, U.PID_PING
 D0, D1 = U.PID_DATA0, U.PID_DATA1
